@@ -104,4 +104,20 @@ def circuitsChecked (a : AM) : Option (List (List Nat)) :=
 `circuitsChecked_ofGraph` in `Thm/C10.lean`). -/
 def circuits (g : Graph) : List (List Nat) := circuitsAM (AM.ofGraph g)
 
+/-! ### Repeated calls on the same `Johnson75` value
+
+`blocked`, `b` and `stack` are fields of the value and survive a call; `result` is a fresh local
+of every call.  `JState.new` = `Johnson75::new` (l.53-64). -/
+
+def JState.new (a : AM) : JState := ⟨[], List.replicate a.order [], [], []⟩
+
+/-- One `circuits()` call on a value whose fields are those of `st` (assert not included). -/
+def circuitsCall (a : AM) (st : JState) : JState :=
+  a.verts.foldl (circuitsStep a) { st with result := [] }
+
+/-- `k` successive `circuits()` calls on the same value: the `k` returned vectors. -/
+def circuitsRepeat (a : AM) : Nat → JState → List (List (List Nat))
+  | 0, _ => []
+  | k+1, st => (circuitsCall a st).result :: circuitsRepeat a k (circuitsCall a st)
+
 end GraafVerif.Johnson
